@@ -224,6 +224,56 @@ def cskipVal (f : Nat) (d : Int) (t : TType) (s : Compact.CR) (bs : Bytes) : Out
 def cskip (d : Int) (t : TType) (s : Compact.CR) (bs : Bytes) : Out (Nat × Compact.CR × Bytes) :=
   cskipVal (3 * bs.length + 3) d t s bs
 
+/-! #### container headers WITHOUT the size check
+
+`check_container_size` exists only in the in-memory checked readers (binary.rs, binary_le.rs,
+compact.rs: `Binary.readListBegin`, `Compact.readCollBegin`, …).  The async readers and the
+unchecked reader return `size as usize` as it is on the wire. -/
+
+/-- `read_list_begin` / `read_set_begin` of `TAsyncBinaryProtocol` and `TBinaryUnsafeInputProtocol`. -/
+def rawListBegin (bs : Bytes) : Out ((TType × Nat) × Bytes) :=
+  match Binary.readTType bs with
+  | .ok (t, r) => match Binary.readI .be 4 r with
+    | .ok (n, r) => .ok ((t, Binary.asUsize n), r)
+    | .err k => .err k | .panic s => .panic s | .fuel => .fuel
+  | .err k => .err k | .panic s => .panic s | .fuel => .fuel
+
+/-- `read_map_begin` of `TAsyncBinaryProtocol` and `TBinaryUnsafeInputProtocol`. -/
+def rawMapBegin (bs : Bytes) : Out ((TType × TType × Nat) × Bytes) :=
+  match Binary.readTType bs with
+  | .ok (kt, r) => match Binary.readTType r with
+    | .ok (vt, r) => match Binary.readI .be 4 r with
+      | .ok (n, r) => .ok ((kt, vt, Binary.asUsize n), r)
+      | .err k => .err k | .panic s => .panic s | .fuel => .fuel
+    | .err k => .err k | .panic s => .panic s | .fuel => .fuel
+  | .err k => .err k | .panic s => .panic s | .fuel => .fuel
+
+/-- `TAsyncCompactProtocol::read_collection_begin`: `read_varint::<u32>()? as i32 … as usize`. -/
+def rawCollBegin (bs : Bytes) : Out ((TType × Nat) × Bytes) :=
+  match Compact.readByte bs with
+  | .ok (h, r) =>
+    match Compact.ttypeOfCompact (h % 16) with
+    | none => .err .invalid
+    | some et =>
+      if h / 16 ≠ 15 then .ok ((et, h / 16), r)
+      else match readVarU 4 r with
+        | .ok (n, r) => .ok ((et, Binary.asUsize (toS 4 n)), r)
+        | .err k => .err k | .panic m => .panic m | .fuel => .fuel
+  | .err k => .err k | .panic m => .panic m | .fuel => .fuel
+
+/-- `TAsyncCompactProtocol::read_map_begin`. -/
+def rawCMapBegin (bs : Bytes) : Out ((TType × TType × Nat) × Bytes) :=
+  match readVarU 4 bs with
+  | .ok (n, r) =>
+    if toS 4 n = 0 then .ok ((.stop, .stop, 0), r)
+    else match Compact.readByte r with
+      | .ok (h, r) =>
+        match Compact.ttypeOfCompact (h / 16), Compact.ttypeOfCompact (h % 16) with
+        | some kt, some vt => .ok ((kt, vt, Binary.asUsize (toS 4 n)), r)
+        | _, _ => .err .invalid
+      | .err k => .err k | .panic m => .panic m | .fuel => .fuel
+  | .err k => .err k | .panic m => .panic m | .fuel => .fuel
+
 /-! #### async reader primitives over a fully delivered stream
 
 `AsyncReadExt::read_exact / read_u8 / read_iNN` on a stream whose remaining bytes are all
@@ -257,8 +307,8 @@ def asyncBinaryPrims : Prims Unit where
   fieldBegin := fun s bs => match Binary.readFieldBegin .be bs with
     | .ok (x, r) => .ok (x, s, r)
     | .err k => .err k | .panic m => .panic m | .fuel => .fuel
-  listBegin := Binary.readListBegin .be
-  mapBegin := Binary.readMapBegin .be
+  listBegin := rawListBegin
+  mapBegin := rawMapBegin
 
 /-- `TAsyncCompactProtocol::read_bytes_vec` (through `read_string`): u32 varint `as usize`, then
 `read_exact_to_vec`. -/
@@ -273,7 +323,7 @@ def asyncCompactLeaf (t : TType) (s : Compact.CR) (bs : Bytes) : Out (Compact.CR
   | t => compactLeaf t s bs          -- `read_bool` (pending value), `read_i8`, varints, LE double, uuid: same code shape
 
 def asyncCompactPrims : Prims Compact.CR :=
-  { compactPrims with leaf := asyncCompactLeaf }
+  { compactPrims with leaf := asyncCompactLeaf, listBegin := rawCollBegin, mapBegin := rawCMapBegin }
 
 /-- async binary skip of `t` with budget `d`: the stream position afterwards. -/
 def askipBinary (d : Int) (t : TType) (bs : Bytes) : Out (Unit × Bytes) :=
@@ -370,7 +420,7 @@ def iterBody (tt : TType) (n : Nat) (bs : Bytes) (st : List Frame) : Out (After 
           else .ok (.bottom, n + 3, r, { t0 := ft, t1 := ft, len := 1 } :: st)
         | .err k => .err k | .panic m => .panic m | .fuel => .fuel
     | .err k => .err k | .panic m => .panic m | .fuel => .fuel
-  | .list => match unchecked (Binary.readListBegin .be bs) with
+  | .list => match unchecked (rawListBegin bs) with
     | .ok ((et, size), r) =>
       if size ≠ 0 then match fixedSize et with
         | .ok w =>
@@ -383,7 +433,7 @@ def iterBody (tt : TType) (n : Nat) (bs : Bytes) (st : List Frame) : Out (After 
         | .err k => .err k | .panic m => .panic m | .fuel => .fuel
       else .ok (.bottom, n + 5, r, st)
     | .err k => .err k | .panic m => .panic m | .fuel => .fuel
-  | .set => match unchecked (Binary.readListBegin .be bs) with
+  | .set => match unchecked (rawListBegin bs) with
     | .ok ((et, size), r) =>
       if size ≠ 0 then match fixedSize et with
         | .ok w =>
@@ -396,7 +446,7 @@ def iterBody (tt : TType) (n : Nat) (bs : Bytes) (st : List Frame) : Out (After 
         | .err k => .err k | .panic m => .panic m | .fuel => .fuel
       else .ok (.bottom, n + 5, r, st)
     | .err k => .err k | .panic m => .panic m | .fuel => .fuel
-  | .map => match unchecked (Binary.readMapBegin .be bs) with
+  | .map => match unchecked (rawMapBegin bs) with
     | .ok ((kt, vt, size), r) =>
       if size > 0 then match fixedSize kt with
         | .ok kw => match fixedSize vt with
